@@ -328,6 +328,11 @@ fn run_generic_history(run: &mut Run, g: &Gen, ttl0: Option<u64>, ops: &[GOp], t
                 let n = book.on_eviction(&before, &obs.keys, op_key);
                 if n > 0 {
                     kinds.insert(if matches!(op, GOp::Put(..)) { "put-evicts" } else { "limit-evicts" });
+                    if obs.keys.is_empty() {
+                        kinds.insert("limit-below-most-recent-entry(evicts-all)");
+                    } else if obs.keys.len() == 1 && matches!(op, GOp::Put(..)) {
+                        kinds.insert("put-evicts-all-others");
+                    }
                 }
             }
             GOp::Drop(t) => {
@@ -421,6 +426,29 @@ fn generic(run: &mut Run, rng: &mut Rng) {
     }
 }
 
+// ------------------------------------------------------------------------------------------ (a')
+/// hand-picked histories for slips that random histories hit only by luck: limit decreased to exactly /
+/// just below the most recently used entry, expiry at the exact boundary noticed by `get` vs
+/// `contains_key`, `contains_key` not promoting, TTL changes not touching stamped entries, replacing the
+/// least recently used key with a value that needs the others' room.
+fn directed(run: &mut Run) {
+    use GOp::*;
+    let g = Gen { keys: vec![(0, 1, Some(0)), (1, 2, None), (2, 0, Some(1))], limit: 20 };
+    let hs: Vec<(Option<u64>, Vec<GOp>)> = vec![
+        (None, vec![Put(0, 1, 5), Put(1, 2, 6), Limit(8), Get(0), Get(1), Limit(7), Get(1), Put(1, 3, 5), Limit(7), Get(1), Limit(6), Get(1), Put(1, 4, 4), Limit(20)]),
+        (Some(5), vec![Put(0, 1, 3), Adv(5), Get(0), Has(0), Adv(1), Has(0), Get(0), Put(0, 2, 3), Adv(6), Get(0), Has(0), Put(0, 3, 3), Adv(6), Has(0), Get(0)]),
+        (None, vec![Put(0, 1, 5), Put(1, 2, 5), Has(0), Put(2, 3, 9), Has(0), Has(1), Clear, Put(0, 4, 5), Put(1, 5, 5), Get(0), Put(2, 6, 9), Has(0), Has(1)]),
+        (Some(5), vec![Put(0, 1, 3), Ttl(None), Adv(6), Get(0), Put(0, 2, 3), Ttl(Some(0)), Adv(100), Get(0), Put(1, 3, 3), Has(1), Adv(1), Has(1)]),
+        (None, vec![Put(0, 1, 4), Put(1, 2, 4), Put(2, 3, 4), Put(0, 4, 17), Get(1), Get(2), Get(0), Put(0, 5, 19), Put(0, 6, 20), Get(0)]),
+        (Some(10), vec![Put(0, 1, 4), Adv(4), Put(1, 2, 4), Adv(6), Get(0), Get(1), Adv(1), Get(0), Adv(3), Get(1), Adv(1), Has(1)]),
+        (None, vec![Put(0, 1, 4), Put(2, 2, 4), Put(1, 3, 4), Drop(0), Get(0), Get(2), Drop(1), Get(2), Get(1), Rm(1), Rm(1)]),
+    ];
+    for (i, (ttl, ops)) in hs.iter().enumerate() {
+        run_generic_history(run, &g, *ttl, ops, &format!("directed#{i}"));
+        run.count("directed-history");
+    }
+}
+
 // ------------------------------------------------------------------------------------------ (b)
 fn exhaustive(run: &mut Run) {
     // alphabet over 2 keys (sizes 1 and 2), limit 10, ttl 5
@@ -500,8 +528,10 @@ struct SimFile {
     /// version of the content; bumped on every rewrite
     version: u64,
 }
+/// `mtime` is in NANOSECONDS after 2023-11-14T22:13:20Z: sub-second changes of `last_modified` are
+/// changes of the file generation like any other
 fn object_meta(f: &SimFile) -> ObjectMeta {
-    ObjectMeta { location: f.path.clone(), last_modified: (UNIX_EPOCH + Duration::from_secs(1_700_000_000 + f.mtime)).into(), size: f.size, e_tag: None, version: None }
+    ObjectMeta { location: f.path.clone(), last_modified: (UNIX_EPOCH + Duration::from_secs(1_700_000_000) + Duration::from_nanos(f.mtime)).into(), size: f.size, e_tag: None, version: None }
 }
 
 fn files(run: &mut Run, rng: &mut Rng) {
@@ -511,9 +541,11 @@ fn files(run: &mut Run, rng: &mut Rng) {
         .collect();
     let plain_schema = Schema::new(vec![Field::new("a", DataType::Int64, true)]);
     for h in 0..n_hist {
-        let stats_cache = rng.chance(1, 2);
+        // the first 24 histories are directed: lookup, one rewrite of each kind, lookup — for both caches
+        let scripted = h < 24;
+        let stats_cache = if scripted { h >= 12 } else { rng.chance(1, 2) };
         let nfiles = 2 + rng.below(3) as usize;
-        let mut fs: Vec<SimFile> = (0..nfiles).map(|i| SimFile { path: Path::from(format!("d/f{}{}", i, "x".repeat(i))), size: 100 + i as u64, mtime: 10, version: 1 }).collect();
+        let mut fs: Vec<SimFile> = (0..nfiles).map(|i| SimFile { path: Path::from(format!("d/f{}{}", i, "x".repeat(i))), size: 100 + i as u64, mtime: 10_500_000_000, version: 1 }).collect();
         let tables = [Some(0u64), Some(1), None, Some(0)];
         let time = MockTime::new();
         // real key/value sizes decide which limits are interesting
@@ -524,7 +556,7 @@ fn files(run: &mut Run, rng: &mut Rng) {
         };
         let probe_k = TableScopedPath { table: Some(table(0)), path: fs[0].path.clone() };
         let unit = if stats_cache { CacheKey::size(&probe_k) + CacheValue::size(&mk_stats(&fs[0], 0, 0)) } else { CacheKey::size(&fs[0].path) + 40 };
-        let limit = *rng.pick(&[unit - 1, unit, unit + 1, 2 * unit + 8, 3 * unit + 20, 100 * unit]);
+        let limit = if scripted { 100 * unit } else { *rng.pick(&[unit - 1, unit, unit + 1, 2 * unit + 8, 3 * unit + 20, 100 * unit]) };
         let c_meta: DefaultCache<Path, CachedFileMetadataEntry> = DefaultCache::new(limit).with_time_provider(time.clone() as Arc<dyn TimeProvider>);
         let c_stat: DefaultCache<TableScopedPath, CachedFileMetadata> = DefaultCache::new(limit).with_time_provider(time.clone() as Arc<dyn TimeProvider>);
         let idx_of: BTreeMap<String, u64> = fs.iter().enumerate().map(|(i, f)| (f.path.to_string(), i as u64)).collect();
@@ -538,23 +570,57 @@ fn files(run: &mut Run, rng: &mut Rng) {
         let mut fails: Vec<(String, String)> = vec![];
         let mut payload = 100u64;
         let mut cur_fp = 0usize;
-        let len = 6 + rng.below(30) as usize;
-        for _ in 0..len {
-            let c = rng.below(100);
-            let i = rng.below(nfiles as u64) as usize;
+        let mut computed_for: BTreeMap<u64, (u64, u64, usize)> = BTreeMap::new();
+        let len = if scripted { 3 } else { 6 + rng.below(30) as usize };
+        for t in 0..len {
+            let (c, i) = if scripted { (if t == 1 { 0 } else { 99 }, 0) } else { (rng.below(100), rng.below(nfiles as u64) as usize) };
             if c < 30 {
                 // rewrite the file: change size and/or mtime (or neither: same size & mtime)
                 let f = &mut fs[i];
                 f.version += 1;
-                match rng.below(4) {
-                    0 => f.size += 1,
-                    1 => f.mtime += 1,
-                    2 => {
+                // every way the object's metadata can move; each one except `same-meta` is a new generation
+                const SEC: u64 = 1_000_000_000;
+                let how = match if scripted { h % 12 } else { rng.below(12) } {
+                    0 => {
                         f.size += 1;
-                        f.mtime += 1
+                        "rewrite:size-only"
                     }
-                    _ => {}
-                }
+                    1 => {
+                        f.mtime += SEC;
+                        "rewrite:mtime-seconds-only"
+                    }
+                    2 | 3 => {
+                        f.mtime += 1;
+                        "rewrite:mtime-1ns-only"
+                    }
+                    4 => {
+                        f.mtime += 1_000;
+                        "rewrite:mtime-1us-only"
+                    }
+                    5 | 6 => {
+                        f.mtime += 1_000_000;
+                        "rewrite:mtime-1ms-only"
+                    }
+                    7 => {
+                        f.size += 1;
+                        f.mtime += SEC + 7;
+                        "rewrite:size+mtime"
+                    }
+                    8 => {
+                        f.mtime = f.mtime.saturating_sub(SEC);
+                        "rewrite:mtime-older(seconds)"
+                    }
+                    9 => {
+                        f.mtime = f.mtime.saturating_sub(1);
+                        "rewrite:mtime-older(1ns)"
+                    }
+                    10 => {
+                        f.size = f.size.saturating_sub(1);
+                        "rewrite:size-smaller"
+                    }
+                    _ => "rewrite:same-meta",
+                };
+                kinds.insert(how);
                 kinds.insert("file-rewritten");
                 continue;
             }
@@ -580,6 +646,8 @@ fn files(run: &mut Run, rng: &mut Rng) {
             let meta = object_meta(&f);
             payload += 1;
             let (ktxt, vtxt, outcome, used_meta): (String, String, String, (u64, u64, usize));
+            // the harness's own record of which file generation every payload was computed from
+            computed_for.insert(payload, (f.size, f.mtime, if stats_cache { cur_fp } else { 0 }));
             if stats_cache {
                 let key = TableScopedPath { table: tables[i].map(table), path: f.path.clone() };
                 let fresh = mk_stats(&f, cur_fp, payload);
@@ -590,8 +658,7 @@ fn files(run: &mut Run, rng: &mut Rng) {
                     && cached.is_valid_for(&meta, &schemas[cur_fp])
                 {
                     outcome = format!("cached:{}", vid_s(&cached));
-                    let fpi = schemas.iter().position(|s| s.as_ref() == cached.schema_fingerprint.as_ref()).unwrap();
-                    used_meta = (cached.meta.size, cached.meta.last_modified.timestamp() as u64 - 1_700_000_000, fpi);
+                    used_meta = computed_for[&vid_s(&cached)];
                     kinds.insert("use-cached");
                 } else {
                     c_stat.put(&key, fresh);
@@ -601,7 +668,7 @@ fn files(run: &mut Run, rng: &mut Rng) {
                 }
                 req.push_str(&format!(" (use {ktxt} {vtxt} t)"));
             } else {
-                let msize = *rng.pick(&[0usize, 1, 40, 40, 40, limit]);
+                let msize = if scripted { 40 } else { *rng.pick(&[0usize, 1, 40, 40, 40, limit]) };
                 let fresh = CachedFileMetadataEntry::new(meta.clone(), Arc::new(HMeta { id: payload, size: msize }));
                 ktxt = format!("({} {} -)", i, CacheKey::size(&f.path));
                 vtxt = format!("({} {} {} {} 0)", payload, CacheValue::size(&fresh), f.size, f.mtime);
@@ -610,7 +677,7 @@ fn files(run: &mut Run, rng: &mut Rng) {
                     && cached.is_valid_for(&meta)
                 {
                     outcome = format!("cached:{}", vid_m(&cached));
-                    used_meta = (cached.meta.size, cached.meta.last_modified.timestamp() as u64 - 1_700_000_000, 0);
+                    used_meta = computed_for[&vid_m(&cached)];
                     kinds.insert("use-cached");
                 } else {
                     c_meta.put(&f.path, fresh);
@@ -622,7 +689,7 @@ fn files(run: &mut Run, rng: &mut Rng) {
             }
             // oracle: whatever was used was computed for a file with the current size & mtime (& schema)
             if used_meta != (f.size, f.mtime, if stats_cache { cur_fp } else { 0 }) {
-                fails.push(("stale-metadata-used".into(), format!("file {i} is (size {}, mtime {}, schema {cur_fp}) but the value used was cached for {:?}", f.size, f.mtime, used_meta)));
+                fails.push(("stale-metadata-used".into(), format!("file {i} is now (size {}, mtime {} ns, schema {cur_fp}) but the value used was computed from generation (size, mtime ns, schema) = {:?}", f.size, f.mtime, used_meta)));
             }
             let o = if stats_cache { observe(&c_stat, time.base, &kid_t, &vid_s) } else { observe(&c_meta, time.base, &kid_p, &vid_m) };
             for p in &o.problems {
@@ -813,6 +880,7 @@ fn list_id(v: &CachedFileList) -> u64 {
 pub fn run(run: &mut Run, args: &Args) {
     let mut rng = Rng::new(args.seed);
     generic(run, &mut rng);
+    directed(run);
     exhaustive(run);
     files(run, &mut rng);
     listing(run, &mut rng);
